@@ -98,6 +98,18 @@ func c20universe(c c20cfg, nfull int) []string {
 	return keys
 }
 
+// c20nfull: cap+1 full-length keys; for cap>=4 with variable key length the two shorter keys are
+// valid too, so only as many full-length keys as needed for cap+1 valid keys (state count).
+func c20nfull(c c20cfg) int {
+	if c.cap >= 4 && !c.fixed {
+		if c.klen >= 2 {
+			return c.cap - 1
+		}
+		return c.cap
+	}
+	return c.cap + 1
+}
+
 // c20ref is the reference model: a set of universe key indices (bitmask).
 type c20ref uint32
 
@@ -242,12 +254,55 @@ func (x *c20x) restore(dst, src *c20inst, srcKey string) bool {
 	return k == srcKey
 }
 
+// loops reports that walking the collision chain of key's bucket can never end: the chain does
+// not terminate within cap+1 links (a cycle) and key is not met on the way. Exist/Add/Remove of
+// that key would then spin forever inside bfe (exist/del have no other exit), so the harness
+// must not make the call; it is reported from the structure, not from a timeout.
+func (x *c20x) loops(set *HashSet, key []byte) bool {
+	if len(key) > x.cfg.klen {
+		return false // rejected by validateKey before any walk
+	}
+	idx := set.ha[set.hashFunc(key)%uint64(set.haSize)]
+	for n := 0; n <= x.cfg.cap; n++ {
+		if idx < 0 || int(idx) >= len(set.np.array) {
+			return false
+		}
+		if set.np.compare(key, idx) == 0 {
+			return false
+		}
+		idx = set.np.array[idx].next
+	}
+	return true
+}
+
+// cyclic reports whether any bucket chain fails to terminate within cap+1 links.
+func (x *c20x) cyclic(set *HashSet) bool {
+	for _, idx := range set.ha {
+		n := 0
+		for ; idx >= 0 && int(idx) < len(set.np.array) && n <= x.cfg.cap; n++ {
+			idx = set.np.array[idx].next
+		}
+		if n > x.cfg.cap {
+			return true
+		}
+	}
+	return false
+}
+
 // probe compares Len and Exist(every universe key) with the reference set and returns the
 // first mismatch: Len, then the operation's own key (the most direct symptom), then the rest.
 // opKey < 0: no own key.
 func (x *c20x) probe(set *HashSet, ref c20ref, opKey int) (kind, detail string) {
 	if n := set.Len(); n != ref.n() {
 		return "len-mismatch", fmt.Sprintf("Len()=%d, mathematical set %s has %d", n, x.members(ref), ref.n())
+	}
+	for i, k := range x.keys {
+		if !x.cyclic(set) {
+			break
+		}
+		if x.loops(set, x.keyb[i]) {
+			return "exist-never-returns", fmt.Sprintf("the collision chain of Exist(%q) is cyclic and does not contain the key: %s", k, c20pretty(set, x.cfg.klen))
+		}
 	}
 	if opKey >= 0 {
 		if got, want := set.Exist(x.keyb[opKey]), ref.has(opKey); got != want {
@@ -280,7 +335,9 @@ func (x *c20x) probeAll(set *HashSet, ref c20ref) string {
 		d = append(d, fmt.Sprintf("Len()=%d", n))
 	}
 	for i, k := range x.keys {
-		if got := set.Exist(x.keyb[i]); got != ref.has(i) {
+		if x.loops(set, x.keyb[i]) {
+			d = append(d, fmt.Sprintf("Exist(%q) never returns (cyclic chain)", k))
+		} else if got := set.Exist(x.keyb[i]); got != ref.has(i) {
 			d = append(d, fmt.Sprintf("Exist(%q)=%v", k, got))
 		}
 	}
@@ -320,6 +377,10 @@ func (x *c20x) step(in *c20inst, op int, judge bool) (sig, detail string) {
 	ki := op % K
 	var kbuf [8]byte
 	kb := append(kbuf[:0], x.keyb[ki]...) // the set must copy the key; hand it a private slice
+	if x.cyclic(set) && x.loops(set, kb) && !(op/K == 0 && set.Full()) {
+		// cannot happen after a judged prefix (every universe key was probed); kept as a guard
+		return mk("set", "op", "never-returns"), fmt.Sprintf("%s would walk a cyclic chain forever: %s", x.opString(op), c20pretty(set, x.cfg.klen))
+	}
 	val := x.valid(ki)
 	member := in.ref.has(ki)
 	full := in.ref.n() >= x.cfg.cap
@@ -491,7 +552,7 @@ func TestVerifC20(t *testing.T) {
 	r := vk.Start(t, "C20")
 	defer r.Finish()
 	// millions of tiny short-lived objects over a small live heap: collect less often
-	defer debug.SetGCPercent(debug.SetGCPercent(800))
+	defer debug.SetGCPercent(debug.SetGCPercent(300))
 	maxCap := r.Pick(3, 4)
 	klens := []int{2, 1}
 	if r.Thorough() {
@@ -504,6 +565,9 @@ func TestVerifC20(t *testing.T) {
 	for cp := maxCap; cp >= 1; cp-- {
 		for _, fixed := range []bool{false, true} {
 			for _, kl := range klens {
+				if cp >= 4 && !fixed && kl >= 3 {
+					continue // state count; klen 3 is covered for cap<=3 and for cap 4 fixed
+				}
 				for _, h := range c20hashes {
 					cfgs = append(cfgs, c20cfg{cp, kl, fixed, h})
 				}
@@ -512,7 +576,7 @@ func TestVerifC20(t *testing.T) {
 	}
 	deepest := 0
 	for idx, cfg := range cfgs {
-		x := &c20x{r: r, cfg: cfg, cfgs: cfg.String(), mode: "var", keys: c20universe(cfg, cfg.cap+1), hf: c20hash(cfg.hash), out: map[[2]string]int64{}, nt: map[uint64]struct{}{}}
+		x := &c20x{r: r, cfg: cfg, cfgs: cfg.String(), mode: "var", keys: c20universe(cfg, c20nfull(cfg)), hf: c20hash(cfg.hash), out: map[[2]string]int64{}, nt: map[uint64]struct{}{}}
 		if cfg.fixed {
 			x.mode = "fixed"
 		}
@@ -554,5 +618,5 @@ func TestVerifC20(t *testing.T) {
 		r.Set("max_depth_to_closure", deepest)
 		t.Logf("C20 %s keys=%q states=%d transitions=%d depth=%d closed=%v outcomes=%v", x.cfgs, x.keys, states, trans, depth, closed, oc)
 	}
-	r.Set("bounds", fmt.Sprintf("cap 1..%d x key length %v x {variable,fixed} x hash %v; universe per config: cap+1 full-length keys, one shorter key (klen>=2), the empty key, one over-long key; ops Add/Remove/Exist per key + Len; BFS over histories to closure of the concrete state (depth cap %d)", maxCap, klens, c20hashes, maxDepth))
+	r.Set("bounds", fmt.Sprintf("cap 1..%d x key length %v (cap 4 variable-length: key length <= 2) x {variable,fixed} x hash %v; universe per config: cap+1 full-length keys (cap 4 variable-length: cap+1 valid keys in total), one shorter key (klen>=2), the empty key, one over-long key; ops Add/Remove/Exist per key + Len; BFS over histories to closure of the concrete state (depth cap %d)", maxCap, klens, c20hashes, maxDepth))
 }
